@@ -18,7 +18,7 @@ from typing import (
 )
 
 from ._typing import T, T1, T2, T3, T4, T5, AnyIterable
-from ._core import aiter
+from ._core import aiter, ScopedIter
 from .contextlib import nullcontext
 
 
@@ -420,10 +420,11 @@ async def any_iter(
     """
     iterable = __iter if not isawaitable(__iter) else await __iter
     if isinstance(iterable, AsyncIterable):
-        async for item in iterable:
-            yield (
-                item if not isawaitable(item) else await item
-            )  # pyright: ignore[reportReturnType]
+        async with ScopedIter(iterable) as iterator:
+            async for item in iterator:
+                yield (
+                    item if not isawaitable(item) else await item
+                )  # pyright: ignore[reportReturnType]
     else:
         for item in iterable:
             yield (
